@@ -61,10 +61,10 @@ def postVal : Posterior Float → Val
   | .single i => .list [.str "single", indivVal i]
   | .hier is cov => .list [.str "hier", .list (is.map indivVal), covVal cov]
 
-/-- `C14.run frameOrder bareSingle rawSelector config rows selector shared` →
+/-- `C14.run config rows selector shared` (the code as it is) →
     `err:<kind> stage` | `ok ids regimens posterior sharedAfter` -/
 def run : Op
-  | [.bool l1, .bool l2, .bool l3, cfgv, rowsv, selv, shv] => do
+  | [cfgv, rowsv, selv, shv] => do
     let cfg ← parseConfig cfgv
     let rows ← (← rowsv.list?).mapM parseRow
     let sel ← Val.opt? parseId selv
@@ -75,7 +75,7 @@ def run : Op
       let regs : Val := match P.regimens with
         | none => .none
         | some r => .list (r.map (fun p => .list [.str p.1, evVal p.2]))
-      match getLogPosterior ⟨l1, l2, l3⟩ P sel sh with
+      match getLogPosterior Legacy.asIs P sel sh with
       | .error e => some [errVal (errName e), .str "get_log_posterior", ofStrs P.ids, regs]
       | .ok (post, shEnd) => some [.str "ok", ofStrs P.ids, regs, postVal post, optEv shEnd]
   | _ => none
